@@ -27,6 +27,7 @@ theorem invL_win (c0 : Cfg) (hne : c0.incoming ≠ [] ∨ c0.outgoing ≠ []) (s
     (hq : c0.isQuorum q = true) (hall : ∀ x ∈ q, (⟨(s.nodes i).term, x, i⟩ : Grant) ∈ s.grants) :
     InvL { s with nodes := upd s.nodes i { s.nodes i with role := 2 },
                   llog := updT s.llog (s.nodes i).term (s.nodes i).log,
+                  elog := updT s.elog (s.nodes i).term (s.nodes i).log,
                   elected := ((s.nodes i).term, i) :: s.elected } := by
   -- nobody was elected for this term before
   have hfresh : ∀ j, ((s.nodes i).term, j) ∉ s.elected := by
@@ -50,25 +51,22 @@ theorem invL_win (c0 : Cfg) (hne : c0.incoming ≠ [] ∨ c0.outgoing ≠ []) (s
   constructor
   · intro l hl
     apply hmono
-    rcases hl with ⟨j, hj⟩ | ⟨j, hj⟩ | ⟨j, im, him, hj⟩ | ⟨j, t, f, idx, hj⟩ | ⟨a, ha, hj⟩ | ⟨m, hm, hj⟩ | ⟨t, hj⟩
+    rcases hl with ⟨j, hj⟩ | ⟨a, ha, hj⟩ | ⟨m, hm, hj⟩ | ⟨t, hj⟩ | ⟨p, hp, hj⟩ | ⟨t, hj⟩
     · by_cases hji : j = i
-      · subst hji; simp only [upd, if_true] at hj; rw [hj]; exact hplog
+      · subst hji
+        have : nodeLists (s.nodes j) l := by simpa [upd, nodeLists] using hj
+        exact h.pfl l (Or.inl ⟨j, this⟩)
       · simp only [upd, hji, if_false] at hj; exact h.pfl l (Or.inl ⟨j, hj⟩)
-    · by_cases hji : j = i
-      · subst hji; simp only [upd, if_true] at hj; exact h.pfl l (Or.inr (Or.inl ⟨j, hj⟩))
-      · simp only [upd, hji, if_false] at hj; exact h.pfl l (Or.inr (Or.inl ⟨j, hj⟩))
-    · by_cases hji : j = i
-      · subst hji; simp only [upd, if_true] at him; exact h.pfl l (Or.inr (Or.inr (Or.inl ⟨j, im, him, hj⟩)))
-      · simp only [upd, hji, if_false] at him; exact h.pfl l (Or.inr (Or.inr (Or.inl ⟨j, im, him, hj⟩)))
-    · by_cases hji : j = i
-      · subst hji; simp only [upd, if_true] at hj; exact h.pfl l (Or.inr (Or.inr (Or.inr (Or.inl ⟨j, t, f, idx, hj⟩))))
-      · simp only [upd, hji, if_false] at hj; exact h.pfl l (Or.inr (Or.inr (Or.inr (Or.inl ⟨j, t, f, idx, hj⟩))))
-    · exact h.pfl l (Or.inr (Or.inr (Or.inr (Or.inr (Or.inl ⟨a, ha, hj⟩)))))
-    · exact h.pfl l (Or.inr (Or.inr (Or.inr (Or.inr (Or.inr (Or.inl ⟨m, hm, hj⟩))))))
+    · rw [hj]; exact h.pfl _ (listsOf_acks s a ha)
+    · rw [hj]; exact h.pfl _ (listsOf_snap s m hm)
+    · by_cases ht : t = (s.nodes i).term
+      · subst ht; simp only [updT, if_true] at hj; rw [hj]; exact hplog
+      · simp only [updT, ht, if_false] at hj; rw [hj]; exact h.pfl _ (listsOf_llog s t)
+    · exact h.pfl l (Or.inr (Or.inr (Or.inr (Or.inr (Or.inl ⟨p, hp, hj⟩)))))
     · by_cases ht : t = (s.nodes i).term
       · subst ht; simp only [updT, if_true] at hj; rw [hj]; exact hplog
       · simp only [updT, ht, if_false] at hj
-        exact h.pfl l (Or.inr (Or.inr (Or.inr (Or.inr (Or.inr (Or.inr ⟨t, hj⟩))))))
+        exact h.pfl l (Or.inr (Or.inr (Or.inr (Or.inr (Or.inr ⟨t, hj⟩)))))
   · intro m hm
     have := h.msg m hm
     have hmt : m.term ≠ (s.nodes i).term := by
@@ -140,25 +138,21 @@ theorem invL_lappend (c0 : Cfg) (hne : c0.incoming ≠ [] ∨ c0.outgoing ≠ []
   have hpos : 0 < (s.nodes i).term := h.pos i (by rw [hrole]; decide)
   constructor
   · intro l hl
-    rcases hl with ⟨j, hj⟩ | ⟨j, hj⟩ | ⟨j, im, him, hj⟩ | ⟨j, t, f, idx, hj⟩ | ⟨a, ha, hj⟩ | ⟨m, hm, hj⟩ | ⟨t, hj⟩
+    rcases hl with ⟨j, hj⟩ | ⟨a, ha, hj⟩ | ⟨m, hm, hj⟩ | ⟨t, hj⟩ | ⟨p, hp, hj⟩ | ⟨t, hj⟩
     · by_cases hji : j = i
-      · subst hji; simp only [upd, if_true] at hj; rw [hj]; exact hnew
+      · subst hji
+        simp only [upd, if_true, nodeLists] at hj
+        rcases hj with hj | hj
+        · rw [hj]; exact hnew
+        · exact hmono l (h.pfl l (Or.inl ⟨j, Or.inr (by simpa [nodeLists] using hj)⟩))
       · simp only [upd, hji, if_false] at hj; exact hmono l (h.pfl l (Or.inl ⟨j, hj⟩))
-    · by_cases hji : j = i
-      · subst hji; simp only [upd, if_true] at hj; exact hmono l (h.pfl l (Or.inr (Or.inl ⟨j, hj⟩)))
-      · simp only [upd, hji, if_false] at hj; exact hmono l (h.pfl l (Or.inr (Or.inl ⟨j, hj⟩)))
-    · by_cases hji : j = i
-      · subst hji; simp only [upd, if_true] at him; exact hmono l (h.pfl l (Or.inr (Or.inr (Or.inl ⟨j, im, him, hj⟩))))
-      · simp only [upd, hji, if_false] at him; exact hmono l (h.pfl l (Or.inr (Or.inr (Or.inl ⟨j, im, him, hj⟩))))
-    · by_cases hji : j = i
-      · subst hji; simp only [upd, if_true] at hj; exact hmono l (h.pfl l (Or.inr (Or.inr (Or.inr (Or.inl ⟨j, t, f, idx, hj⟩)))))
-      · simp only [upd, hji, if_false] at hj; exact hmono l (h.pfl l (Or.inr (Or.inr (Or.inr (Or.inl ⟨j, t, f, idx, hj⟩)))))
-    · exact hmono l (h.pfl l (Or.inr (Or.inr (Or.inr (Or.inr (Or.inl ⟨a, ha, hj⟩))))))
-    · exact hmono l (h.pfl l (Or.inr (Or.inr (Or.inr (Or.inr (Or.inr (Or.inl ⟨m, hm, hj⟩)))))))
+    · rw [hj]; exact hmono _ (h.pfl _ (listsOf_acks s a ha))
+    · rw [hj]; exact hmono _ (h.pfl _ (listsOf_snap s m hm))
     · by_cases ht : t = (s.nodes i).term
       · subst ht; simp only [updT, if_true] at hj; rw [hj]; exact hnew
-      · simp only [updT, ht, if_false] at hj
-        exact hmono l (h.pfl l (Or.inr (Or.inr (Or.inr (Or.inr (Or.inr (Or.inr ⟨t, hj⟩)))))))
+      · simp only [updT, ht, if_false] at hj; rw [hj]; exact hmono _ (h.pfl _ (listsOf_llog s t))
+    · exact hmono l (h.pfl l (Or.inr (Or.inr (Or.inr (Or.inr (Or.inl ⟨p, hp, hj⟩))))))
+    · exact hmono l (h.pfl l (Or.inr (Or.inr (Or.inr (Or.inr (Or.inr ⟨t, hj⟩))))))
   · intro m hm
     have := h.msg m hm
     by_cases hmt : m.term = (s.nodes i).term
@@ -229,39 +223,71 @@ theorem invL_lappend (c0 : Cfg) (hne : c0.incoming ≠ [] ∨ c0.outgoing ≠ []
 theorem upd_self (f : Nat → PNode) (i : Nat) : upd f i (f i) = f := by
   funext j; by_cases h : j = i <;> simp [upd, h]
 
-theorem ack_mem_append_nonack {l : List OMsg} {x : OMsg} {t f idx : Nat} {pre : List LEntry}
-    (hx : ∀ t f idx pre, x ≠ OMsg.ack t f idx pre) (h : OMsg.ack t f idx pre ∈ l ++ [x]) :
-    OMsg.ack t f idx pre ∈ l := by
-  rcases mem_outbox_append h with h | h
-  · exact h
-  · exact absurd h.symm (hx t f idx pre)
+/-- node lists when only scalar fields changed -/
+theorem nl_of_fields {n' : PNode} {l : List LEntry} (hl : nodeLists n' l) (n : PNode)
+    (h1 : n'.log = n.log) (h2 : n'.dlog = n.dlog)
+    (h3 : n'.pending = n.pending) (h4 : n'.outbox = n.outbox) (h5 : n'.dacks = n.dacks) :
+    nodeLists n l := by
+  revert hl
+  unfold nodeLists; rw [h1, h2, h3, h4, h5]; exact id
+
+/-- node lists when one message was appended to the outbox -/
+theorem nl_outbox_append {n' : PNode} {l : List LEntry} (hl : nodeLists n' l) (n : PNode) (x : OMsg)
+    (h1 : n'.log = n.log) (h2 : n'.dlog = n.dlog)
+    (h3 : n'.pending = n.pending) (h4 : n'.outbox = n.outbox ++ [x]) (h5 : n'.dacks = n.dacks) :
+    nodeLists n l ∨ (∃ t f idx, x = OMsg.ack t f idx l) ∨
+      (∃ t v c gh, x = OMsg.grant t v c gh ∧ gh.vlog = l) := by
+  revert hl
+  unfold nodeLists; rw [h1, h2, h3, h4, h5]
+  rintro (h | h | h | ⟨t, f, idx, h⟩ | h | ⟨t, v, c, gh, h, hv⟩)
+  · exact Or.inl (Or.inl h)
+  · exact Or.inl (Or.inr (Or.inl h))
+  · exact Or.inl (Or.inr (Or.inr (Or.inl h)))
+  · rcases mem_outbox_append h with h | h
+    · exact Or.inl (Or.inr (Or.inr (Or.inr (Or.inl ⟨t, f, idx, h⟩))))
+    · exact Or.inr (Or.inl ⟨t, f, idx, h.symm⟩)
+  · exact Or.inl (Or.inr (Or.inr (Or.inr (Or.inr (Or.inl h)))))
+  · rcases mem_outbox_append h with h | h
+    · exact Or.inl (Or.inr (Or.inr (Or.inr (Or.inr (Or.inr ⟨t, v, c, gh, h, hv⟩)))))
+    · exact Or.inr (Or.inr ⟨t, v, c, gh, h.symm, hv⟩)
+
+theorem keep_pendt (s : PSys) (h : InvL s) (i : Nat) :
+    ∀ im ∈ (s.nodes i).pending, ∀ e ∈ im.log, e.term ≤ im.term := (h.tle i).2.2
 
 set_option maxHeartbeats 1600000 in
 theorem invL_step (c0 : Cfg) (hne : c0.incoming ≠ [] ∨ c0.outgoing ≠ []) (s s' : PSys) (e : Event)
     (hc : e.cfgOk c0) (hV : InvV c0 (vsys s)) (hI : InvL s) (h : applyEvent s e = .ok s') : InvL s' := by
+  have keepA : ∀ a ∈ s.acks, a ∈ s.acks ∨ PFL s.llog a.pre := fun a ha => Or.inl ha
+  have keepS : ∀ m ∈ s.snaps, m ∈ s.snaps ∨ (PFL s.llog m.pre ∧ ∀ e ∈ m.pre, e.term ≤ m.term) := fun m hm => Or.inl hm
+  have keepM : ∀ m ∈ s.apps, m ∈ s.apps ∨ MsgOk s m := fun m hm => Or.inl hm
+  have keepG : ∀ p ∈ s.rgv, p ∈ s.rgv ∨ PFL s.llog p.2.vlog := fun p hp => Or.inl hp
   cases e with
   | bump i t =>
     simp only [applyEvent, ok] at h
     split at h
     · rename_i hg; cases h
-      refine invL_node s hI i _ _ rfl rfl rfl (fun a ha => Or.inl ha) (fun m hm => Or.inl hm)
-        (fun m hm => Or.inl hm) (keep_log s hI i) ?_ (keep_dlog s hI i) (hI.tle i).2.1 (keep_pend s hI i)
-        (keep_out s hI i) (by simp) (by simp) (by simp)
+      refine invL_node s hI i _ _ rfl rfl rfl rfl keepA keepS keepM keepG
+        (fun l hl => keep_node s hI i l (nl_of_fields hl (s.nodes i) rfl rfl rfl rfl rfl))
+        ?_ (hI.tle i).2.1 (keep_pendt s hI i) (by simp) (by simp) (by simp)
       intro e he; have := (hI.tle i).1 e he; simp only; omega
     · cases h
   | campaign i =>
     simp only [applyEvent, ok] at h
     split at h
     · rename_i hg; cases h
-      refine invL_node s hI i _ _ rfl rfl rfl (fun a ha => Or.inl ha) (fun m hm => Or.inl hm)
-        (fun m hm => Or.inl hm) (keep_log s hI i) (hI.tle i).1 (keep_dlog s hI i) (hI.tle i).2.1 (keep_pend s hI i)
-        ?_ (by simp) ?_ (fun _ => hg.2.2.2.2)
-      · intro t f idx l hl
-        simp only [List.mem_append, List.mem_cons, List.not_mem_nil, or_false] at hl
-        rcases hl with hl | hl | hl
-        · exact keep_out s hI i t f idx l hl
-        · cases hl
-        · cases hl
+      refine invL_node s hI i _ _ rfl rfl rfl rfl keepA keepS keepM keepG ?_
+        (hI.tle i).1 (hI.tle i).2.1 (keep_pendt s hI i) (by simp) ?_ (fun _ => hg.2.2.2.2)
+      · intro l hl
+        -- two messages appended: a vote request and the self-grant (recording the own log)
+        have h1 := nl_outbox_append hl { s.nodes i with vote := i, role := 1, outbox := (s.nodes i).outbox ++ [.voteReq (s.nodes i).term i (lastTerm (s.nodes i).log) (s.nodes i).log.length] } (.grant (s.nodes i).term i i ⟨(s.nodes i).log, !(s.elected.any (fun p => p.1 = (s.nodes i).term)), lastTerm (s.nodes i).log, (s.nodes i).log.length⟩) rfl rfl rfl (by simp) rfl
+        rcases h1 with h1 | ⟨t, f, idx, h1⟩ | ⟨t, v, c, gh, h1, hv⟩
+        · have h2 := nl_outbox_append h1 (s.nodes i) _ rfl rfl rfl rfl rfl
+          rcases h2 with h2 | ⟨t, f, idx, h2⟩ | ⟨t, v, c, gh, h2, _⟩
+          · exact keep_node s hI i l h2
+          · cases h2
+          · cases h2
+        · cases h1
+        · cases h1; rw [← hv]; exact keep_log s hI i
       · intro _ hmem
         obtain ⟨hs, _⟩ := hV.el _ hmem
         have := hV.gu i _ (Or.inr ⟨hs, rfl⟩)
@@ -274,25 +300,44 @@ theorem invL_step (c0 : Cfg) (hne : c0.incoming ≠ [] ∨ c0.outgoing ≠ []) (
   | grant i c =>
     simp only [applyEvent, ok] at h
     split at h
-    · rename_i hg; cases h
-      refine invL_node s hI i _ _ rfl rfl rfl (fun a ha => Or.inl ha) (fun m hm => Or.inl hm)
-        (fun m hm => Or.inl hm) (keep_log s hI i) (hI.tle i).1 (keep_dlog s hI i) (hI.tle i).2.1 (keep_pend s hI i)
-        ?_ (by simp) (by simp) (by simp)
-      intro t f idx l hl
-      exact keep_out s hI i t f idx l (ack_mem_append_nonack (by intro _ _ _ _ hh; cases hh) hl)
+    · split at h
+      · rename_i hg; cases h
+        refine invL_node s hI i _ _ rfl rfl rfl rfl keepA keepS keepM keepG ?_
+          (hI.tle i).1 (hI.tle i).2.1 (keep_pendt s hI i) (by simp) (by simp) (by simp)
+        intro l hl
+        have h1 := nl_outbox_append hl (s.nodes i) _ rfl rfl rfl rfl rfl
+        rcases h1 with h1 | ⟨t, f, idx, h1⟩ | ⟨t, v, c', gh, h1, hv⟩
+        · exact keep_node s hI i l h1
+        · cases h1
+        · cases h1; rw [← hv]; exact keep_log s hI i
+      · cases h
     · cases h
   | rdy i =>
     simp only [applyEvent, ok] at h
     split at h
     · cases h
-      refine invL_node s hI i _ _ rfl rfl rfl (fun a ha => Or.inl ha) (fun m hm => Or.inl hm)
-        (fun m hm => Or.inl hm) (keep_log s hI i) (hI.tle i).1 (keep_dlog s hI i) (hI.tle i).2.1 ?_
-        (keep_out s hI i) (hI.ll i) (hI.cand i) (hI.pos i)
-      intro im him
-      simp only [List.mem_append, List.mem_singleton] at him
-      rcases him with him | him
-      · exact keep_pend s hI i im him
-      · subst him; exact ⟨keep_log s hI i, (hI.tle i).1⟩
+      refine invL_node s hI i _ _ rfl rfl rfl rfl keepA keepS keepM keepG ?_
+        (hI.tle i).1 (hI.tle i).2.1 ?_ (hI.ll i) (hI.cand i) (hI.pos i)
+      · intro l hl
+        simp only [nodeLists, List.mem_append, List.mem_singleton] at hl
+        rcases hl with hl | hl | ⟨im, him, hl⟩ | hl | hl | hl
+        · exact keep_node s hI i l (Or.inl hl)
+        · exact keep_node s hI i l (Or.inr (Or.inl hl))
+        · rcases him with him | him
+          · exact keep_node s hI i l (Or.inr (Or.inr (Or.inl ⟨im, him, hl⟩)))
+          · subst him
+            rcases hl with hl | ⟨t, f, idx, hl⟩
+            · rw [hl]; exact keep_log s hI i
+            · simp only [image, List.mem_filter] at hl
+              exact keep_node s hI i l (Or.inr (Or.inr (Or.inr (Or.inl ⟨t, f, idx, hl.1⟩))))
+        · exact keep_node s hI i l (Or.inr (Or.inr (Or.inr (Or.inl hl))))
+        · exact keep_node s hI i l (Or.inr (Or.inr (Or.inr (Or.inr (Or.inl hl)))))
+        · exact keep_node s hI i l (Or.inr (Or.inr (Or.inr (Or.inr (Or.inr hl)))))
+      · intro im him
+        simp only [List.mem_append, List.mem_singleton] at him
+        rcases him with him | him
+        · exact keep_pendt s hI i im him
+        · subst him; exact (hI.tle i).1
     · cases h
   | persist i k =>
     simp only [applyEvent, ok] at h
@@ -301,61 +346,106 @@ theorem invL_step (c0 : Cfg) (hne : c0.incoming ≠ [] ∨ c0.outgoing ≠ []) (
       · rename_i im him
         cases h
         have hmem : im ∈ (s.nodes i).pending := List.mem_of_getElem? him
-        refine invL_node s hI i _ _ rfl rfl rfl (fun a ha => Or.inl ha) (fun m hm => Or.inl hm)
-          (fun m hm => Or.inl hm) (keep_log s hI i) (hI.tle i).1 (keep_pend s hI i im hmem).1
-          (keep_pend s hI i im hmem).2 (fun x hx => keep_pend s hI i x (List.mem_of_mem_drop hx))
-          (keep_out s hI i) (hI.ll i) (hI.cand i) (hI.pos i)
+        refine invL_node s hI i _ _ rfl rfl rfl rfl keepA keepS keepM keepG ?_
+          (hI.tle i).1 (keep_pendt s hI i im hmem)
+          (fun x hx => keep_pendt s hI i x (List.mem_of_mem_drop hx)) (hI.ll i) (hI.cand i) (hI.pos i)
+        intro l hl
+        simp only [nodeLists] at hl
+        rcases hl with hl | hl | ⟨x, hx, hl⟩ | hl | ⟨t, f, idx, hl⟩ | hl
+        · exact keep_node s hI i l (Or.inl hl)
+        · exact keep_node s hI i l (Or.inr (Or.inr (Or.inl ⟨im, hmem, Or.inl hl⟩)))
+        · exact keep_node s hI i l (Or.inr (Or.inr (Or.inl ⟨x, List.mem_of_mem_drop hx, hl⟩)))
+        · exact keep_node s hI i l (Or.inr (Or.inr (Or.inr (Or.inl hl))))
+        · exact keep_node s hI i l (Or.inr (Or.inr (Or.inl ⟨im, hmem, Or.inr ⟨t, f, idx, hl⟩⟩)))
+        · exact keep_node s hI i l (Or.inr (Or.inr (Or.inr (Or.inr (Or.inr hl)))))
       · cases h
     · cases h
   | release i key =>
     simp only [applyEvent, ok] at h
     split at h
-    · rename_i k hk
-      split at h
+    · split at h
       · rename_i m hm
         split at h
-        · have hmem : m ∈ (s.nodes i).outbox := List.mem_of_getElem? hm
-          have hsub : ∀ t f idx l, OMsg.ack t f idx l ∈ (s.nodes i).outbox.eraseIdx k → PFL s.llog l :=
-            fun t f idx l hl => keep_out s hI i t f idx l (List.mem_of_mem_eraseIdx hl)
+        · rename_i hg
+          have hmem : m ∈ (s.nodes i).dacks := List.mem_of_find?_eq_some hm
           cases m with
-          | voteReq t c lt li =>
-            simp only [addReleased] at h; cases h
-            exact invL_node s hI i _ _ rfl rfl rfl (fun a ha => Or.inl ha) (fun m hm => Or.inl hm)
-              (fun m hm => Or.inl hm) (keep_log s hI i) (hI.tle i).1 (keep_dlog s hI i) (hI.tle i).2.1
-              (keep_pend s hI i) hsub (hI.ll i) (hI.cand i) (hI.pos i)
-          | grant t vv c =>
-            simp only [addReleased] at h; cases h
-            exact invL_node s hI i _ _ rfl rfl rfl (fun a ha => Or.inl ha) (fun m hm => Or.inl hm)
-              (fun m hm => Or.inl hm) (keep_log s hI i) (hI.tle i).1 (keep_dlog s hI i) (hI.tle i).2.1
-              (keep_pend s hI i) hsub (hI.ll i) (hI.cand i) (hI.pos i)
           | ack t f idx pre =>
             simp only [addReleased] at h; cases h
-            refine invL_node s hI i _ _ rfl rfl rfl ?_ (fun m hm => Or.inl hm)
-              (fun m hm => Or.inl hm) (keep_log s hI i) (hI.tle i).1 (keep_dlog s hI i) (hI.tle i).2.1
-              (keep_pend s hI i) hsub (hI.ll i) (hI.cand i) (hI.pos i)
+            refine invL_node s hI i (s.nodes i) _ (by simp [upd_self]) rfl rfl rfl ?_ keepS keepM keepG
+              (keep_node s hI i) (hI.tle i).1 (hI.tle i).2.1 (keep_pendt s hI i) (hI.ll i) (hI.cand i) (hI.pos i)
             intro a ha
             simp only [List.mem_cons] at ha
             rcases ha with ha | ha
-            · subst ha; exact Or.inr (keep_out s hI i t f idx pre hmem)
+            · subst ha
+              exact Or.inr (keep_node s hI i pre (Or.inr (Or.inr (Or.inr (Or.inr (Or.inl ⟨t, f, idx, hmem⟩))))))
             · exact Or.inl ha
+          | voteReq t c lt li => simp [OMsg.isAck] at hg
+          | grant t vv c gh => simp [OMsg.isAck] at hg
         · cases h
       · cases h
-    · cases h
+    · split at h
+      · rename_i k hk
+        split at h
+        · rename_i m hm
+          split at h
+          · rename_i hg
+            have hmem : m ∈ (s.nodes i).outbox := List.mem_of_getElem? hm
+            have hnl : ∀ l, nodeLists { s.nodes i with outbox := (s.nodes i).outbox.eraseIdx k } l → PFL s.llog l := by
+              intro l hl
+              simp only [nodeLists] at hl
+              rcases hl with hl | hl | hl | ⟨t, f, idx, hl⟩ | hl | ⟨t, v, c, gh, hl, hv⟩
+              · exact keep_node s hI i l (Or.inl hl)
+              · exact keep_node s hI i l (Or.inr (Or.inl hl))
+              · exact keep_node s hI i l (Or.inr (Or.inr (Or.inl hl)))
+              · exact keep_node s hI i l (Or.inr (Or.inr (Or.inr (Or.inl ⟨t, f, idx, List.mem_of_mem_eraseIdx hl⟩))))
+              · exact keep_node s hI i l (Or.inr (Or.inr (Or.inr (Or.inr (Or.inl hl)))))
+              · exact keep_node s hI i l (Or.inr (Or.inr (Or.inr (Or.inr (Or.inr ⟨t, v, c, gh, List.mem_of_mem_eraseIdx hl, hv⟩)))))
+            cases m with
+            | voteReq t c lt li =>
+              simp only [addReleased] at h; cases h
+              exact invL_node s hI i _ _ rfl rfl rfl rfl keepA keepS keepM keepG hnl
+                (hI.tle i).1 (hI.tle i).2.1 (keep_pendt s hI i) (hI.ll i) (hI.cand i) (hI.pos i)
+            | grant t vv c gh =>
+              simp only [addReleased] at h; cases h
+              refine invL_node s hI i _ _ rfl rfl rfl rfl keepA keepS keepM ?_ hnl
+                (hI.tle i).1 (hI.tle i).2.1 (keep_pendt s hI i) (hI.ll i) (hI.cand i) (hI.pos i)
+              intro p hp
+              simp only [List.mem_cons] at hp
+              rcases hp with hp | hp
+              · subst hp
+                exact Or.inr (keep_node s hI i _ (Or.inr (Or.inr (Or.inr (Or.inr (Or.inr ⟨t, vv, c, gh, hmem, rfl⟩))))))
+              · exact Or.inl hp
+            | ack t f idx pre => simp [OMsg.isAck] at hg
+          · cases h
+        · cases h
+      · cases h
   | crash i =>
     simp only [applyEvent, ok] at h
     split at h
     · cases h
-      exact invL_node s hI i _ _ rfl rfl rfl (fun a ha => Or.inl ha) (fun m hm => Or.inl hm)
-        (fun m hm => Or.inl hm) (keep_log s hI i) (hI.tle i).1 (keep_dlog s hI i) (hI.tle i).2.1
-        (by simp) (by simp) (by simp) (by simp) (by simp)
+      refine invL_node s hI i _ _ rfl rfl rfl rfl keepA keepS keepM keepG ?_
+        (hI.tle i).1 (hI.tle i).2.1 (by simp) (by simp) (by simp) (by simp)
+      intro l hl
+      simp only [nodeLists, List.not_mem_nil, false_and, exists_false, or_false, false_or] at hl
+      rcases hl with hl | hl | hl
+      · exact keep_node s hI i l (Or.inl hl)
+      · exact keep_node s hI i l (Or.inr (Or.inl hl))
+      · exact keep_node s hI i l (Or.inr (Or.inr (Or.inr (Or.inr (Or.inl hl)))))
     · cases h
   | restart i =>
     simp only [applyEvent, ok] at h
     split at h
     · cases h
-      exact invL_node s hI i _ _ rfl rfl rfl (fun a ha => Or.inl ha) (fun m hm => Or.inl hm)
-        (fun m hm => Or.inl hm) (keep_dlog s hI i) (hI.tle i).2.1 (keep_dlog s hI i) (hI.tle i).2.1
-        (by simp) (by simp) (by simp) (by simp) (by simp)
+      refine invL_node s hI i _ _ rfl rfl rfl rfl keepA keepS keepM keepG ?_
+        (hI.tle i).2.1 (hI.tle i).2.1 (by simp) (by simp) (by simp) (by simp)
+      intro l hl
+      simp only [nodeLists, List.not_mem_nil, false_and, exists_false, false_or, List.mem_filter] at hl
+      rcases hl with hl | hl | ⟨t, f, idx, hl, _⟩ | hl | ⟨t, v, c, gh, ⟨hl, hk⟩, _⟩
+      · exact keep_node s hI i l (Or.inr (Or.inl hl))
+      · exact keep_node s hI i l (Or.inr (Or.inl hl))
+      · exact keep_node s hI i l (Or.inr (Or.inr (Or.inr (Or.inr (Or.inl ⟨t, f, idx, hl⟩)))))
+      · exact keep_node s hI i l (Or.inr (Or.inr (Or.inr (Or.inr (Or.inl hl)))))
+      · simp [OMsg.isAck] at hk
     · cases h
   | win i cfg q =>
     simp only [applyEvent, ok] at h
@@ -373,9 +463,9 @@ theorem invL_step (c0 : Cfg) (hne : c0.incoming ≠ [] ∨ c0.outgoing ≠ []) (
     simp only [applyEvent, ok] at h
     split at h
     · cases h
-      exact invL_node s hI i _ _ rfl rfl rfl (fun a ha => Or.inl ha) (fun m hm => Or.inl hm)
-        (fun m hm => Or.inl hm) (keep_log s hI i) (hI.tle i).1 (keep_dlog s hI i) (hI.tle i).2.1
-        (keep_pend s hI i) (keep_out s hI i) (by simp) (by simp) (by simp)
+      exact invL_node s hI i _ _ rfl rfl rfl rfl keepA keepS keepM keepG
+        (fun l hl => keep_node s hI i l (nl_of_fields hl (s.nodes i) rfl rfl rfl rfl rfl))
+        (hI.tle i).1 (hI.tle i).2.1 (keep_pendt s hI i) (by simp) (by simp) (by simp)
     · cases h
   | leaderAppend i e =>
     simp only [applyEvent, ok] at h
@@ -401,9 +491,8 @@ theorem invL_step (c0 : Cfg) (hne : c0.incoming ≠ [] ∨ c0.outgoing ≠ []) (
         · rw [hg.2.2.1, ← hll]; have := hg.2.2.2.2.1; omega
         · rw [hg.2.2.1, ← hll]; exact hes
         · rw [hg.2.2.1, ← hll]; exact hg.2.2.2.2.2.1
-      refine invL_node s hI i (s.nodes i) _ (by simp [upd_self]) rfl rfl (fun a ha => Or.inl ha)
-        (fun m hm => Or.inl hm) ?_ (keep_log s hI i) (hI.tle i).1 (keep_dlog s hI i) (hI.tle i).2.1
-        (keep_pend s hI i) (keep_out s hI i) (hI.ll i) (hI.cand i) (hI.pos i)
+      refine invL_node s hI i (s.nodes i) _ (by simp [upd_self]) rfl rfl rfl keepA keepS ?_ keepG
+        (keep_node s hI i) (hI.tle i).1 (hI.tle i).2.1 (keep_pendt s hI i) (hI.ll i) (hI.cand i) (hI.pos i)
       intro m' hm'
       simp only [List.mem_cons] at hm'
       rcases hm' with hm' | hm'
@@ -416,7 +505,7 @@ theorem invL_step (c0 : Cfg) (hne : c0.incoming ≠ [] ∨ c0.outgoing ≠ []) (
     · rename_i hg; cases h
       have hm : m ∈ s.apps := by simpa [List.contains_iff_mem] using hg.2.1
       have hok := hI.msg m hm
-      have hL : PFL s.llog (s.llog m.term) := hI.pfl _ (Or.inr (Or.inr (Or.inr (Or.inr (Or.inr (Or.inr ⟨m.term, rfl⟩))))))
+      have hL : PFL s.llog (s.llog m.term) := hI.pfl _ (listsOf_llog s m.term)
       have hanchor : termAt (s.nodes i).log m.prev = termAt (s.llog m.term) m.prev := by
         rw [hg.2.2.2.2.2.1]; exact hok.anchor
       have hpre := anchor_take (keep_log s hI i) hL hg.2.2.2.2.1 (by have := hok.len; omega) hanchor
@@ -433,81 +522,96 @@ theorem invL_step (c0 : Cfg) (hne : c0.incoming ≠ [] ∨ c0.outgoing ≠ []) (
         · rw [h1] at he
           have := (hI.lterm m.term e (List.mem_of_mem_take he)).2
           rw [hg.2.2.1] at this; exact this
-      refine invL_node s hI i _ _ rfl rfl rfl (fun a ha => Or.inl ha) (fun m hm => Or.inl hm)
-        (fun m hm => Or.inl hm) hlp hlt (keep_dlog s hI i) (hI.tle i).2.1 (keep_pend s hI i) ?_
-        (by simp) (by simp) (by simp)
-      intro t f idx l hl
-      rcases mem_outbox_append hl with hl | hl
-      · exact keep_out s hI i t f idx l hl
-      · cases hl; exact PFL_take hlp _
+      refine invL_node s hI i _ _ rfl rfl rfl rfl keepA keepS keepM keepG ?_ hlt
+        (hI.tle i).2.1 (keep_pendt s hI i) (by simp) (by simp) (by simp)
+      intro l hl
+      have h1 := nl_outbox_append hl { s.nodes i with role := 0, log := mergeAt (s.nodes i).log m.prev m.es } _ rfl rfl rfl rfl rfl
+      rcases h1 with h1 | ⟨t, f, idx, h1⟩ | ⟨t, v, c, gh, h1, _⟩
+      · simp only [nodeLists] at h1
+        rcases h1 with h1 | h1
+        · rw [h1]; exact hlp
+        · exact keep_node s hI i l (Or.inr (by simpa [nodeLists] using h1))
+      · cases h1; exact PFL_take hlp _
+      · cases h1
     · cases h
   | ackCommitted i =>
     simp only [applyEvent, ok] at h
     split at h
     · cases h
-      refine invL_node s hI i _ _ rfl rfl rfl (fun a ha => Or.inl ha) (fun m hm => Or.inl hm)
-        (fun m hm => Or.inl hm) (keep_log s hI i) (hI.tle i).1 (keep_dlog s hI i) (hI.tle i).2.1 (keep_pend s hI i) ?_
-        (hI.ll i) (hI.cand i) (hI.pos i)
-      intro t f idx l hl
-      rcases mem_outbox_append hl with hl | hl
-      · exact keep_out s hI i t f idx l hl
-      · cases hl; exact PFL_take (keep_log s hI i) _
+      refine invL_node s hI i _ _ rfl rfl rfl rfl keepA keepS keepM keepG ?_
+        (hI.tle i).1 (hI.tle i).2.1 (keep_pendt s hI i) (hI.ll i) (hI.cand i) (hI.pos i)
+      intro l hl
+      have h1 := nl_outbox_append hl (s.nodes i) _ rfl rfl rfl rfl rfl
+      rcases h1 with h1 | ⟨t, f, idx, h1⟩ | ⟨t, v, c, gh, h1, _⟩
+      · exact keep_node s hI i l h1
+      · cases h1; exact PFL_take (keep_log s hI i) _
+      · cases h1
+    · cases h
+  | ackSelf i idx =>
+    simp only [applyEvent, ok] at h
+    split at h
+    · cases h
+      refine invL_node s hI i _ _ rfl rfl rfl rfl keepA keepS keepM keepG ?_
+        (hI.tle i).1 (hI.tle i).2.1 (keep_pendt s hI i) (hI.ll i) (hI.cand i) (hI.pos i)
+      intro l hl
+      have h1 := nl_outbox_append hl (s.nodes i) _ rfl rfl rfl rfl rfl
+      rcases h1 with h1 | ⟨t, f, idx', h1⟩ | ⟨t, v, c, gh, h1, _⟩
+      · exact keep_node s hI i l h1
+      · cases h1; exact PFL_take (keep_log s hI i) _
+      · cases h1
     · cases h
   | commitLeader i c cfg q =>
     simp only [applyEvent, ok] at h
     split at h
     · cases h
-      exact invL_node s hI i _ _ rfl rfl rfl (fun a ha => Or.inl ha) (fun m hm => Or.inl hm)
-        (fun m hm => Or.inl hm) (keep_log s hI i) (hI.tle i).1 (keep_dlog s hI i) (hI.tle i).2.1
-        (keep_pend s hI i) (keep_out s hI i) (hI.ll i) (hI.cand i) (hI.pos i)
+      exact invL_node s hI i _ _ rfl rfl rfl rfl keepA keepS keepM keepG
+        (fun l hl => keep_node s hI i l (nl_of_fields hl (s.nodes i) rfl rfl rfl rfl rfl))
+        (hI.tle i).1 (hI.tle i).2.1 (keep_pendt s hI i) (hI.ll i) (hI.cand i) (hI.pos i)
     · cases h
   | commitApp i c m =>
     simp only [applyEvent, ok] at h
     split at h
     · cases h
-      exact invL_node s hI i _ _ rfl rfl rfl (fun a ha => Or.inl ha) (fun m hm => Or.inl hm)
-        (fun m hm => Or.inl hm) (keep_log s hI i) (hI.tle i).1 (keep_dlog s hI i) (hI.tle i).2.1
-        (keep_pend s hI i) (keep_out s hI i) (hI.ll i) (hI.cand i) (hI.pos i)
+      exact invL_node s hI i _ _ rfl rfl rfl rfl keepA keepS keepM keepG
+        (fun l hl => keep_node s hI i l (nl_of_fields hl (s.nodes i) rfl rfl rfl rfl rfl))
+        (hI.tle i).1 (hI.tle i).2.1 (keep_pendt s hI i) (hI.ll i) (hI.cand i) (hI.pos i)
     · cases h
   | commitHB i c m =>
     simp only [applyEvent, ok] at h
     split at h
     · cases h
-      exact invL_node s hI i _ _ rfl rfl rfl (fun a ha => Or.inl ha) (fun m hm => Or.inl hm)
-        (fun m hm => Or.inl hm) (keep_log s hI i) (hI.tle i).1 (keep_dlog s hI i) (hI.tle i).2.1
-        (keep_pend s hI i) (keep_out s hI i) (hI.ll i) (hI.cand i) (hI.pos i)
+      exact invL_node s hI i _ _ rfl rfl rfl rfl keepA keepS keepM keepG
+        (fun l hl => keep_node s hI i l (nl_of_fields hl (s.nodes i) rfl rfl rfl rfl rfl))
+        (hI.tle i).1 (hI.tle i).2.1 (keep_pendt s hI i) (hI.ll i) (hI.cand i) (hI.pos i)
     · cases h
   | commitClaim i m =>
     simp only [applyEvent, ok] at h
     split at h
     · cases h
-      exact invL_node s hI i _ _ rfl rfl rfl (fun a ha => Or.inl ha) (fun m hm => Or.inl hm)
-        (fun m hm => Or.inl hm) (keep_log s hI i) (hI.tle i).1 (keep_dlog s hI i) (hI.tle i).2.1
-        (keep_pend s hI i) (keep_out s hI i) (hI.ll i) (hI.cand i) (hI.pos i)
+      exact invL_node s hI i _ _ rfl rfl rfl rfl keepA keepS keepM keepG
+        (fun l hl => keep_node s hI i l (nl_of_fields hl (s.nodes i) rfl rfl rfl rfl rfl))
+        (hI.tle i).1 (hI.tle i).2.1 (keep_pendt s hI i) (hI.ll i) (hI.cand i) (hI.pos i)
     · cases h
   | sendHB i to c =>
     simp only [applyEvent, ok] at h
     split at h
     · cases h
-      exact invL_node s hI i (s.nodes i) _ (by simp [upd_self]) rfl rfl (fun a ha => Or.inl ha)
-        (fun m hm => Or.inl hm) (fun m hm => Or.inl hm) (keep_log s hI i) (hI.tle i).1 (keep_dlog s hI i)
-        (hI.tle i).2.1 (keep_pend s hI i) (keep_out s hI i) (hI.ll i) (hI.cand i) (hI.pos i)
+      exact invL_node s hI i (s.nodes i) _ (by simp [upd_self]) rfl rfl rfl keepA keepS keepM keepG
+        (keep_node s hI i) (hI.tle i).1 (hI.tle i).2.1 (keep_pendt s hI i) (hI.ll i) (hI.cand i) (hI.pos i)
     · cases h
   | claim i idx =>
     simp only [applyEvent, ok] at h
     split at h
     · cases h
-      exact invL_node s hI i (s.nodes i) _ (by simp [upd_self]) rfl rfl (fun a ha => Or.inl ha)
-        (fun m hm => Or.inl hm) (fun m hm => Or.inl hm) (keep_log s hI i) (hI.tle i).1 (keep_dlog s hI i)
-        (hI.tle i).2.1 (keep_pend s hI i) (keep_out s hI i) (hI.ll i) (hI.cand i) (hI.pos i)
+      exact invL_node s hI i (s.nodes i) _ (by simp [upd_self]) rfl rfl rfl keepA keepS keepM keepG
+        (keep_node s hI i) (hI.tle i).1 (hI.tle i).2.1 (keep_pendt s hI i) (hI.ll i) (hI.cand i) (hI.pos i)
     · cases h
   | sendSnap i idx =>
     simp only [applyEvent, ok] at h
     split at h
     · cases h
-      refine invL_node s hI i (s.nodes i) _ (by simp [upd_self]) rfl rfl (fun a ha => Or.inl ha)
-        ?_ (fun m hm => Or.inl hm) (keep_log s hI i) (hI.tle i).1 (keep_dlog s hI i)
-        (hI.tle i).2.1 (keep_pend s hI i) (keep_out s hI i) (hI.ll i) (hI.cand i) (hI.pos i)
+      refine invL_node s hI i (s.nodes i) _ (by simp [upd_self]) rfl rfl rfl keepA ?_ keepM keepG
+        (keep_node s hI i) (hI.tle i).1 (hI.tle i).2.1 (keep_pendt s hI i) (hI.ll i) (hI.cand i) (hI.pos i)
       intro m hm
       simp only [List.mem_cons] at hm
       rcases hm with hm | hm
@@ -522,15 +626,19 @@ theorem invL_step (c0 : Cfg) (hne : c0.incoming ≠ [] ∨ c0.outgoing ≠ []) (
       split at h
       · rename_i hg; cases h
         have hmem : m ∈ s.snaps := List.mem_of_find?_eq_some hm
-        have hp : PFL s.llog m.pre := hI.pfl _ (Or.inr (Or.inr (Or.inr (Or.inr (Or.inr (Or.inl ⟨m, hmem, rfl⟩))))))
-        refine invL_node s hI i _ _ rfl rfl rfl (fun a ha => Or.inl ha) (fun m hm => Or.inl hm)
-          (fun m hm => Or.inl hm) hp ?_ (keep_dlog s hI i) (hI.tle i).2.1 (keep_pend s hI i) ?_
-          (by simp) (by simp) (by simp)
+        have hp : PFL s.llog m.pre := hI.pfl _ (listsOf_snap s m hmem)
+        refine invL_node s hI i _ _ rfl rfl rfl rfl keepA keepS keepM keepG ?_ ?_
+          (hI.tle i).2.1 (keep_pendt s hI i) (by simp) (by simp) (by simp)
+        · intro l hl
+          have h1 := nl_outbox_append hl { s.nodes i with role := 0, log := m.pre, commit := m.idx } _ rfl rfl rfl rfl rfl
+          rcases h1 with h1 | ⟨t', f, idx', h1⟩ | ⟨t', v, c, gh, h1, _⟩
+          · simp only [nodeLists] at h1
+            rcases h1 with h1 | h1
+            · rw [h1]; exact hp
+            · exact keep_node s hI i l (Or.inr (by simpa [nodeLists] using h1))
+          · cases h1; exact hp
+          · cases h1
         · intro e he; have := hI.stle m hmem e he; rw [hg.2.1] at this; exact this
-        · intro t' f idx' l hl
-          rcases mem_outbox_append hl with hl | hl
-          · exact keep_out s hI i t' f idx' l hl
-          · cases hl; exact hp
       · cases h
     · cases h
   | commitSnap i t idx sterm =>
@@ -538,9 +646,9 @@ theorem invL_step (c0 : Cfg) (hne : c0.incoming ≠ [] ∨ c0.outgoing ≠ []) (
     split at h
     · split at h
       · cases h
-        exact invL_node s hI i _ _ rfl rfl rfl (fun a ha => Or.inl ha) (fun m hm => Or.inl hm)
-          (fun m hm => Or.inl hm) (keep_log s hI i) (hI.tle i).1 (keep_dlog s hI i) (hI.tle i).2.1
-          (keep_pend s hI i) (keep_out s hI i) (hI.ll i) (hI.cand i) (hI.pos i)
+        exact invL_node s hI i _ _ rfl rfl rfl rfl keepA keepS keepM keepG
+          (fun l hl => keep_node s hI i l (nl_of_fields hl (s.nodes i) rfl rfl rfl rfl rfl))
+          (hI.tle i).1 (hI.tle i).2.1 (keep_pendt s hI i) (hI.ll i) (hI.cand i) (hI.pos i)
       · cases h
     · cases h
   | bootstrap i donor idx =>
@@ -550,8 +658,17 @@ theorem invL_step (c0 : Cfg) (hne : c0.incoming ≠ [] ∨ c0.outgoing ≠ []) (
       have hp : PFL s.llog ((s.nodes donor).dlog.take idx) := PFL_take (keep_dlog s hI donor) _
       have ht : ∀ e ∈ (s.nodes donor).dlog.take idx, e.term ≤ (s.nodes donor).dterm :=
         fun e he => (hI.tle donor).2.1 e (List.mem_of_mem_take he)
-      refine invL_node s hI i _ _ rfl rfl rfl (fun a ha => Or.inl ha) (fun m hm => Or.inl hm)
-        (fun m hm => Or.inl hm) hp ht hp ht (keep_pend s hI i) (keep_out s hI i) ?_ ?_ ?_
+      refine invL_node s hI i _ _ rfl rfl rfl rfl keepA keepS keepM keepG ?_ ht ht
+        (keep_pendt s hI i) ?_ ?_ ?_
+      · intro l hl
+        simp only [nodeLists] at hl
+        rcases hl with hl | hl | hl | hl | hl | hl
+        · rw [hl]; exact hp
+        · rw [hl]; exact hp
+        · exact keep_node s hI i l (Or.inr (Or.inr (Or.inl hl)))
+        · exact keep_node s hI i l (Or.inr (Or.inr (Or.inr (Or.inl hl))))
+        · exact keep_node s hI i l (Or.inr (Or.inr (Or.inr (Or.inr (Or.inl hl)))))
+        · exact keep_node s hI i l (Or.inr (Or.inr (Or.inr (Or.inr (Or.inr hl)))))
       · simp [hg.2.2.2.2.2.2.2.2.2.2.1]
       · simp [hg.2.2.2.2.2.2.2.2.2.2.1]
       · simp [hg.2.2.2.2.2.2.2.2.2.2.1]
